@@ -928,6 +928,44 @@ fn c03(em: &mut Em, rng: &mut Rng, thorough: bool) {
     events_opt(em, rng, &mut |_r| it2.next());
 }
 
+/// Arguments at which u32 / i32 arithmetic changes behaviour.
+const WILD: [u32; 12] = [0, 1, 2, 9999, 10000, 0x7fff_fffe, 0x7fff_ffff, 0x8000_0000, 0x8000_0001, 0xffff_fff0, 0xffff_fffe, 0xffff_ffff];
+fn safety_family(em: &mut Em, rng: &mut Rng, thorough: bool) {
+    for &(c, l) in [(0u32, 0u32), (0, 5), (5, 0), (1, 1), (80, 24), (1, 7), (7, 1)].iter() { em.init_probe(c, l); }
+    // states: reachable ones, and the same with out-of-contract cursor / geometry written through the pub fields
+    let mut pool: Vec<Screen> = Vec::new();
+    let ex = exotic_states(rng); let n_ex = ex.len();
+    for (k, st) in ex.into_iter().enumerate() { if thorough || k % 3 == (rng.below(3) as usize) || k + 3 >= n_ex { pool.push(st); } }
+    let base: Vec<Screen> = pool.iter().take(if thorough { 24 } else { 8 }).map(fork).collect();
+    for b in base.iter() {
+        for (x, y) in [(u32::MAX, 0u32), (0, u32::MAX), (u32::MAX - 1, u32::MAX - 1), (0x8000_0000, 0x7fff_ffff), (b.columns, b.lines), (b.columns + 1, b.lines + 3)] {
+            let mut t = fork(b); t.cursor.x = if x == 0 { t.cursor.x } else { x }; t.cursor.y = if y == 0 { t.cursor.y } else { y }; pool.push(t); }
+        let mut t = fork(b); t.columns = 0; pool.push(t);
+        let mut t = fork(b); t.lines = 0; t.margins = None; pool.push(t);
+        let mut t = fork(b); t.columns = 0; t.lines = 0; t.margins = None; t.cursor.x = 0; t.cursor.y = 0; pool.push(t);
+    }
+    for st in pool.iter() {
+        let far_y = st.cursor.y > 100_000; let far_x = st.cursor.x > 100_000;
+        let mut ops: Vec<Op> = Vec::new();
+        for &a in WILD.iter() {
+            let v = Some(a);
+            ops.extend([Op::Cuu(v), Op::Cud(v), Op::Cuf(v), Op::Cub(v), Op::Cnl(v), Op::Cpl(v), Op::Cha(v), Op::Vpa(v), Op::Ich(v), Op::Dch(v), Op::Ech(v), Op::Il(v), Op::Dl(v),
+                Op::Cup(v, None), Op::Cup(None, v), Op::Cup(v, v), Op::Margins(v, None), Op::Margins(None, v), Op::Margins(Some(1), v), Op::Margins(v, Some(3)),
+                Op::Tbc(v), Op::El(v), Op::Sm(vec![a], true), Op::Rm(vec![a], true), Op::Sm(vec![a], false), Op::Sgr(vec![38, 5, a]), Op::Sgr(vec![a])]);
+            // ED 1 walks 0..cursor.y: not from a cursor billions of rows down
+            if !(far_y && a == 1) { ops.push(Op::Ed(v)); }
+        }
+        ops.extend([Op::Index, Op::Linefeed, Op::RevIndex, Op::Tab, Op::Backspace, Op::CR, Op::Save, Op::Restore, Op::SetTab, Op::Reset, Op::Align, Op::Display,
+            Op::Draw("a".into()), Op::Draw("\u{4e2d}".into()), Op::Draw("\u{301}".into()), Op::Draw("ab\u{4e2d}c".into()),
+            Op::Sm(vec![3], true), Op::Rm(vec![3], true), Op::Sm(vec![6], true), Op::Rm(vec![6], true), Op::Sm(vec![4], false), Op::Sm(vec![20], false),
+            Op::Resize(Some(0), None), Op::Resize(None, Some(0)), Op::Resize(Some(0), Some(0)), Op::Resize(Some(1), Some(1)), Op::Resize(Some(st.lines.saturating_add(2).min(60)), Some(st.columns.saturating_add(3).min(200))),
+            Op::Cud(None), Op::Cuf(None), Op::Cup(None, None), Op::Ed(None), Op::El(None), Op::Ich(None), Op::Il(None), Op::Ech(None), Op::Margins(None, None), Op::Vpa(None)]);
+        let _ = far_x;
+        let keep = if thorough { 1 } else { 3 };
+        for o in ops.iter() { if rng.below(keep) != 0 { continue; } em.safety_probe(st, o); }
+    }
+}
+
 // ------------------------------------------------------------------ C11 decoder
 fn feed_bytes_rec(chunks: &[Vec<u8>], sel: &[(usize, &str)]) -> Option<Vec<Op>> {
     let ch: Vec<Vec<u8>> = chunks.to_vec(); let sel: Vec<(usize, String)> = sel.iter().map(|(i, s)| (*i, s.to_string())).collect();
@@ -1110,6 +1148,10 @@ fn c01(em: &mut Em, rng: &mut Rng, thorough: bool) {
     // (d) local probes: every operation with boundary arguments from built states (panic = failing input; model agreement on the way)
     let g2: Vec<(u32, u32)> = SMALL.iter().chain(MED.iter()).cloned().collect();
     for _ in 0..(if thorough { 1500 } else { 150 }) { let (c, l) = *rng.pick(&g2); let sp = random_spec(rng, c, l); if let Some(s) = build(&sp, rng) { walk(em, rng, &s, 10, &mut |r, cur| gen_op(r, cur)); em.display_probe(&s); } else { em.fail("C01", format!("panic while building a state from {:?}", sp)); } }
+    // (f) where the Rust text *does* panic: the checked-arithmetic conditions of coq/Safe.v against the real crate, outside the
+    //     contract (arguments up to u32::MAX, `as i32` edge values, cursor far outside the grid, zero-sized screens via the pub
+    //     fields) and inside it. A panic the model does not predict is an unlisted panic site; inside the contract it is a failure of C01.
+    safety_family(em, rng, thorough);
     // (e) 132-column switch through the parser on big geometries (coroutine stack, debug build)
     for &(c, l) in BIG.iter() { if !em.next_id() { continue; } let r = safe(move || { let m = Arc::new(Mutex::new(Screen::new(c, l))); let mut p = Parser::new(m.clone()); p.feed("\u{1b}[?3h".into()); p.feed("x".repeat(300)); p.feed("\u{1b}[?3l\u{1b}[2J\u{1b}#8".into()); p.feed("\u{1b}[?5h\u{1b}[?5l\u{1b}c".into()); let n = m.lock().unwrap().display().len(); n });
         em.bump("big_cases"); if r.is_none() { em.fail("C01", format!("panic: DECCOLM round trip through the parser on {}x{}", c, l)); } }
